@@ -115,6 +115,7 @@ def run_case(case, drv):
     try:
         names = m.add_nodes(case["name"], float(init), float(rate), float(cap))
         impl = ("ok", list(names))
+        names.append("caller-appended")      # the returned list belongs to the caller
     except Exception as e:  # noqa
         impl = (core.err_kind(e), repr(e))
     spec = dict(size=fs(size), horizon=fs(H), ports=[dict(name=case["name"], init=fs(init), rate=fs(rate), cap=fs(cap))], order=[],
@@ -130,6 +131,8 @@ def run_case(case, drv):
     if impl[0] == "ok":
         st = MU.mirp_state(m)
         nodes = st["g"]["nodes"][1:]
+        if st["mapping"].get(case["name"]) != impl[1]:
+            res.fail("add_nodes:mapping-aliased", f"the port's node list {st['mapping'].get(case['name'])} differs from the returned names {impl[1]} after the caller modified the returned list")
         if mres[0][0] == "ok":
             if impl[1] != mres[0][1]:
                 res.disagree("add_nodes names", impl[1], mres[0][1])
